@@ -190,13 +190,15 @@ Definition axis_row (md : rowmode) (ax n L : nat) (alpha x : F) : list F :=
 Section Block.
 (* [cm] is applied to the contraction coefficients (identity, or |.| for the error scale) *)
 Variables (md : rowmode) (cm : F -> F).
+(* [ef] the exponential: fexp K, or the constant 1 for the second error scale (see [block_scale]) *)
+Variable ef : F -> F.
 Variables (s : shell F) (o : comp).
 
 (* per primitive and point: the Gaussian (ONE exp of the exact argument) and the three rows *)
 Definition prim_data (p : point) (alpha : F) : F * (list F * list F * list F) :=
   let '(px, py, pz) := p in let '(ox, oy, oz) := o in
   let dx := px - s_x s in let dy := py - s_y s in let dz := pz - s_z s in
-  (fexp K (- (alpha * (dx * dx + dy * dy + dz * dz))),
+  (ef (- (alpha * (dx * dx + dy * dy + dz * dz))),
    (axis_row md 0 ox (s_l s) alpha dx,
     axis_row md 1 oy (s_l s) alpha dy,
     axis_row md 2 oz (s_l s) alpha dz)).
@@ -227,18 +229,21 @@ End Block.
 Definition eval_block (s : shell F) (pts : list point) (o : comp) (bk : backend)
   : option (list (list (list F))) :=
   if accepts bk o then
-    Some (block_with (mode_of bk (s_l s) (comps_of s) o) (fun c => c) s o pts)
+    Some (block_with (mode_of bk (s_l s) (comps_of s) o) (fun c => c) (fexp K) s o pts)
   else None.
 
 (* Eval.construct_array_contraction (eval.py:56-111): the general routine with orders zero *)
 Definition eval_block0 (s : shell F) (pts : list point) : list (list (list F)) :=
-  block_with (gen_mode false (s_l s) (0, 0, 0)%nat) (fun c => c) s (0, 0, 0)%nat pts.
+  block_with (gen_mode false (s_l s) (0, 0, 0)%nat) (fun c => c) (fexp K) s (0, 0, 0)%nat pts.
 
 (* error scale: the same sum with every monomial of the axis polynomial and every coefficient
    replaced by its absolute value (all monomials x^(l-n+2j) of u carry the sign (-1)^j, so
-   u (-|alpha|) l n |x| is the sum of their absolute values; it is computed by the general row) *)
-Definition block_scale (s : shell F) (pts : list point) (o : comp) : list (list (list F)) :=
-  block_with (gen_mode true (s_l s) o) fabs s o pts.
+   u (-|alpha|) l n |x| is the sum of their absolute values; it is computed by the general row).
+   With [nog] the Gaussian factor is replaced by 1: the sensitivity of the entry to an absolute
+   error of the Gaussian (used for Gaussians in the subnormal range of double precision). *)
+Definition block_scale (nog : bool) (s : shell F) (pts : list point) (o : comp)
+  : list (list (list F)) :=
+  block_with (gen_mode true (s_l s) o) fabs (if nog then (fun _ => 1) else fexp K) s o pts.
 
 (* ------------------------------------------------------------------ *)
 (* whole basis: base_one.py                                             *)
@@ -291,7 +296,7 @@ Definition evaluate_deriv_basis_model (basis : list (shell F)) (pts : list point
   if accepts bk o then
     Some (one_index (fun x => x)
             (map (fun s => (prep_fast s,
-                   block_with (mode_of bk (s_l s) (comps_of s) o) (fun c => c) s o pts)) basis) T)
+                   block_with (mode_of bk (s_l s) (comps_of s) o) (fun c => c) (fexp K) s o pts)) basis) T)
   else None.
 
 (* evaluate_basis(basis, points, transform) *)
@@ -300,8 +305,8 @@ Definition evaluate_basis_model (basis : list (shell F)) (pts : list point)
   one_index (fun x => x) (map (fun s => (prep_fast s, eval_block0 s pts)) basis) T.
 
 (* sum of the absolute values of all terms that make up each entry (tolerance scale) *)
-Definition evaluate_scale_model (basis : list (shell F)) (pts : list point) (o : comp)
+Definition evaluate_scale_model (nog : bool) (basis : list (shell F)) (pts : list point) (o : comp)
            (T : option (list (list F))) : list (list F) :=
-  one_index fabs (map (fun s => (prep_fast s, block_scale s pts o)) basis) T.
+  one_index fabs (map (fun s => (prep_fast s, block_scale nog s pts o)) basis) T.
 
 End Eval.
